@@ -107,6 +107,13 @@ func (d *dupper) DupType(t DataType) DataType {
 		d.uts[actual.ID()] = dp
 		dupAtt := d.DupAttribute(actual.Attribute())
 		dp.SetAttribute(dupAtt)
+		if rt, ok := dp.(*ResultTypeExpr); ok {
+			// ResultTypeExpr.Dup copied the views, give them their own
+			// attributes.
+			for _, v := range rt.Views {
+				v.AttributeExpr = d.DupAttribute(v.AttributeExpr)
+			}
+		}
 
 		// Make sure that if we are dupping a generated type we also put
 		// the dup in the generated type list so that it gets properly
